@@ -74,11 +74,18 @@ def nanrow(r):
     return ["nan" if (isinstance(x, float) and x != x) else x for x in r]
 
 
-def compare_ops(chk, r, ddf, kind_of_active, prov, rep, boxes, right=None):
+def compare_ops(chk, r, ddf, kind_of_active, prov, rep, boxes, right=None, source=None):
     from spatialpandas import sjoin
     pdf, parts, active = represented(ddf)
     geom_cols = [c for c in pdf.columns if hasattr(pdf[c].dtype, "subtype")]
     rep = dict(rep, provenance=prov, partition_sizes=[len(p) for p in parts], active=active)
+    if source is not None:
+        # the partitions must hold the rows of the pandas frame the Dask frame was built from (and of no other live frame)
+        src_cols = [c for c in source.columns if hasattr(source[c].dtype, "subtype")]
+        if rows_of(pdf, geom_cols) != rows_of(source, src_cols):
+            chk.violation(f"dask/partitions-are-not-the-rows-of-the-source-frame/{prov.split('(')[0]}",
+                          dict(rep, dask=rows_of(pdf, geom_cols)[:4], source=rows_of(source, src_cols)[:4]))
+            return
     n = len(pdf)
     chk.evaluated(max(1, n))
     sig = lambda what: f"dask/{what}/{prov.split('(')[0]}"  # noqa: E731
@@ -162,6 +169,32 @@ def compare_ops(chk, r, ddf, kind_of_active, prov, rep, boxes, right=None):
     chk.count("provenance:" + prov.split("(")[0])
 
 
+def twin_elements(kind, els):
+    """elements with the same flat coordinates and the same number of parts per element, split differently one level down
+    (multiline: where a part ends; polygon: where a ring ends; multipolygon: which polygon a ring belongs to)"""
+    import copy
+    if kind not in ("multiline", "polygon", "multipolygon"):
+        return None
+    out = copy.deepcopy(els)
+    if kind in ("multiline", "polygon"):
+        for e in out:
+            if e is not None and len(e) >= 2 and len(e[0]) >= 6:
+                e[1][:0] = e[0][-2:]; del e[0][-2:]
+                return out
+        out.append([[0, 0, 1, 0, 2, 0], [2, 5, 3, 5, 4, 5]] if kind == "multiline" else [[0, 0, 6, 0, 6, 6, 0, 6, 0, 0], [1, 1, 1, 2, 2, 2, 1, 1]])
+        els.append([[0, 0, 1, 0], [2, 0, 2, 5, 3, 5, 4, 5]] if kind == "multiline" else [[0, 0, 6, 0, 6, 6, 0, 6], [0, 0, 1, 1, 1, 2, 2, 2, 1, 1]])
+        return out
+    if kind == "multipolygon":
+        for e in out:
+            if e is not None and len(e) >= 2 and len(e[0]) >= 2:
+                e[1].insert(0, e[0].pop())
+                return out
+        a, b, c = [0, 0, 6, 0, 6, 6, 0, 6, 0, 0], [1, 1, 1, 2, 2, 2, 1, 1], [7, 7, 9, 7, 9, 9, 7, 7]
+        out.append([[a, b], [c]]); els.append([[a], [b, c]])
+        return out
+    return None
+
+
 def _subsets(k):
     import itertools
     for m in range(1, k + 1):
@@ -196,7 +229,18 @@ def run_cases(chk, tier):
                 rep = dict(api="DaskGeoDataFrame", kind=kind, elements=els, points=pts)
                 npart = r.randint(1, min(n, 6))
                 ddf = dd.from_pandas(df, npartitions=npart)
-                compare_ops(chk, r, ddf, kind, f"from_pandas({npart})", rep, boxes)
+                compare_ops(chk, r, ddf, kind, f"from_pandas({npart})", rep, boxes, source=df)
+                # a second live frame with the same coordinates split differently one level down (two versions of a data set)
+                els_a = list(els)
+                els_b = twin_elements(kind, els_a)
+                if els_b is not None:
+                    others = {"v": list(range(len(els_a))), "pts": geo.make_array("point", (pts + [[0, 0]])[:len(els_a)], "float64")}
+                    df_a = GeoDataFrame(dict({"shape": geo.make_array(kind, els_a, "float64")}, **others))
+                    df_b = GeoDataFrame(dict({"shape": geo.make_array(kind, els_b, "float64")}, **others))
+                    dd_a, dd_b = dd.from_pandas(df_a, npartitions=npart), dd.from_pandas(df_b, npartitions=npart)
+                    compare_ops(chk, r, dd_a, kind, f"from_pandas({npart}), twin alive", dict(rep, elements=els_a), boxes[:2], source=df_a)
+                    compare_ops(chk, r, dd_b, kind, f"from_pandas({npart}), twin alive", dict(rep, elements=els_b), boxes[:2], source=df_b)
+                    chk.count("twin-frames")
                 # row filtering: empty partitions; all-missing partitions
                 m = r.choice((2, 3))
                 compare_ops(chk, r, ddf[ddf.v % m != 0], kind, "filter", rep, boxes[:2])
